@@ -325,3 +325,99 @@ Proof.
   exists w'. split; [rewrite Hpr; destruct (false || _); reflexivity|]. split; [exact Hn|]. split; [exact Hd'|]. split; [exact Na'|].
   split; [exact Nw'|exact Hw].
 Qed.
+
+(* ---------- a PINGRESP received in time never leads to a disconnect ---------- *)
+From Minimq Require Import VarintProofs ReaderInv Cancel FillWhole PollReads.
+
+(* PollReads.wait_reads_arrived_packet with the timers in any state that neither fires nor queues now *)
+Lemma wait_reads_arrived_packet_gen : forall f w h rl body t,
+  varint_write (lenN body) = Some rl ->
+  let pkt := h :: rl ++ body in
+  lenN pkt <= rcap (rd w) -> (N.to_nat (lenN pkt) + 2 <= f)%nat -> lenN pkt <= BIG ->
+  w_live w = true -> rdata (rd w) = [] -> rplen (rd w) = None ->
+  next_step (s_ob (w_sess w)) = None ->
+  ping_timed_out (w_sess w) (w_now w) = false -> PQ w ->
+  w_script w = [] -> w_inq w = [(t, pkt)] -> t <= w_now w ->
+  exists w3, wait_for_progress (S f) w = wait_for_progress f w3 /\
+    rdata (rd w3) = pkt /\ rplen (rd w3) = Some (lenN pkt) /\ rcap (rd w3) = rcap (rd w) /\
+    w_sess w3 = set_reader (w_sess w) (rd w3) /\ w_inq w3 = [] /\ w_script w3 = [] /\ w_now w3 = w_now w /\ w_live w3 = true /\
+    w_wire w3 = w_wire w.
+Proof.
+  intros f w h rl body t Hrl pkt Hcap Hf HB Hl Hd Hp Hn Hto Hq Hs Hi Ht.
+  assert (Hna : packet_available (rd w) = false) by (unfold packet_available; now rewrite Hp).
+  cbn [wait_for_progress]. unfold drive_packet. rewrite Hl. cbn [negb drive_loop].
+  unfold process_received. fold (rd w). rewrite Hna. cbn [negb].
+  unfold service. rewrite Hto, (pq_no_ping w Hq).
+  rewrite upd_sess_same, Hn. cbn [orb]. rewrite ?Hn. cbn [negb]. rewrite Hl. cbn [negb].
+  assert (Hat : at_k h rl body (rd w) 0).
+  { unfold at_k. fold pkt. rewrite Hd, takeN_0. split; [reflexivity|]. split; [lia|]. split; [exact Hcap|].
+    split; [|intros pl E; rewrite Hp in E; discriminate].
+    split; [unfold ROK; rewrite Hp; unfold HdrOk; rewrite Hd; cbn; constructor|intros _; unfold read_bytes; rewrite Hd; cbn; lia]. }
+  destruct (fill_whole_dl h rl body Hrl (next_deadline (s_rt (w_sess w))) (N.to_nat (lenN pkt)) (S f) w 0 t Hat) as [w3 [E3 [D3 [P3 [K3 [S3 [Q3 [C3 N3]]]]]]]].
+  { fold pkt. lia. } { lia. } { exact Hs. } { fold pkt. exact HB. }
+  { intros _. fold pkt. rewrite dropN_0. split; [exact Hi|exact Ht]. }
+  { fold pkt. intros E. assert (1 <= lenN pkt) by (unfold pkt; rewrite lenN_cons; lia). lia. }
+  rewrite E3. exists w3. split; [reflexivity|]. fold pkt in D3, P3.
+  destruct (Wire.fill_same (S f) (next_deadline (s_rt (w_sess w))) w) as [[Hwr [Hlv _]] _]. rewrite E3 in Hlv, Hwr. cbn [fst] in Hlv, Hwr.
+  split; [exact D3|]. split; [exact P3|]. split; [exact K3|]. split; [exact S3|]. split; [exact Q3|]. split; [exact C3|]. split; [exact N3|].
+  split; [now rewrite Hlv|exact Hwr].
+Qed.
+
+Theorem poll_pingresp_clears : forall w t t0,
+  2 <= rcap (rd w) -> w_live w = true -> rdata (rd w) = [] -> rplen (rd w) = None ->
+  next_step (s_ob (w_sess w)) = None ->
+  rt_ping_timeout (s_rt (w_sess w)) = Some t0 -> w_now w < t0 ->
+  (forall d, rt_next_ping (s_rt (w_sess w)) = Some d -> w_now w < d) ->
+  w_script w = [] -> w_inq w = [(t, [208; 0])] -> t <= w_now w ->
+  exists w', op_poll FUEL w = (w', ODone None) /\ w_live w' = true /\ w_now w' = w_now w /\ w_wire w' = w_wire w /\
+    rt_ping_timeout (s_rt (w_sess w')) = None /\ rt_next_ping (s_rt (w_sess w')) = rt_next_ping (s_rt (w_sess w)) /\
+    s_ob (w_sess w') = s_ob (w_sess w).
+Proof.
+  intros w t t0 Hcap Hl Hd Hpl Hn Hpt Hlt Hnp Hs Hi Ht.
+  destruct FUEL_big as [f Hf]. assert (Hfu : N.of_nat FUEL = 30000) by reflexivity.
+  unfold op_poll. rewrite Hf.
+  assert (Hto : ping_timed_out (w_sess w) (w_now w) = false).
+  { unfold ping_timed_out. rewrite Hpt. apply N.leb_gt. exact Hlt. }
+  assert (Hq : PQ w) by (unfold PQ, should_queue_pingreq; rewrite Hpt; reflexivity).
+  destruct (wait_reads_arrived_packet_gen (S (S (S (S f)))) w 208 [0] [] t eq_refl) as [w3 [E3 [D3 [P3 [K3 [S3 [Q3 [C3 [N3 [L3 W3]]]]]]]]]];
+    try assumption; try (cbn; unfold BIG; lia).
+  change (208 :: [0] ++ []) with [208; 0] in *. change (lenN [208; 0]) with 2 in *.
+  rewrite E3. clear E3.
+  rewrite wait_unfold. unfold drive_packet. rewrite L3. cbn [negb]. rewrite drive_loop_unfold.
+  assert (Ha3 : packet_available (rd w3) = true) by (unfold packet_available; rewrite P3; unfold read_bytes; rewrite D3; reflexivity).
+  unfold process_received at 1. fold (rd w3). rewrite Ha3. cbn [negb]. unfold take_packet. rewrite P3, D3.
+  change (from_buffer (takeN 2 [208; 0])) with (Some RPingResp).
+  assert (Es3 : set_reader (w_sess w3) (reader_reset (rd w3)) = set_reader (w_sess w) (reader_reset (rd w))).
+  { rewrite S3. unfold reader_reset. rewrite K3. destruct (w_sess w); reflexivity. }
+  rewrite Es3. cbn [handle_packet].
+  set (s4 := set_rt (set_reader (w_sess w) (reader_reset (rd w)))
+                    (rt_with_timers (s_rt (set_reader (w_sess w) (reader_reset (rd w))))
+                                    (rt_next_ping (s_rt (set_reader (w_sess w) (reader_reset (rd w))))) None)).
+  match goal with |- context [drive_loop ?fu true ?x] => set (w4 := x) end.
+  assert (S4 : w_sess w4 = s4) by reflexivity.
+  assert (L4 : w_live w4 = true) by (unfold w4; cbn [w_live upd_drained upd_envok upd_sess]; exact L3).
+  assert (N4 : w_now w4 = w_now w) by (unfold w4; cbn [w_now upd_drained upd_envok upd_sess]; exact N3).
+  assert (W4 : w_wire w4 = w_wire w) by (unfold w4; cbn [w_wire upd_drained upd_envok upd_sess]; exact W3).
+  rewrite drive_loop_unfold. unfold process_received. rewrite S4.
+  assert (Na4 : packet_available (s_reader s4) = false) by reflexivity. rewrite Na4. cbn [negb].
+  unfold service, ping_timed_out. rewrite S4.
+  assert (Pt4 : rt_ping_timeout (s_rt s4) = None) by reflexivity.
+  assert (Np4 : rt_next_ping (s_rt s4) = rt_next_ping (s_rt (w_sess w))) by reflexivity.
+  assert (Ob4 : s_ob s4 = s_ob (w_sess w)) by reflexivity.
+  rewrite Pt4. unfold maybe_queue_pingreq, should_queue_pingreq. rewrite Pt4, Np4, N4.
+  assert (Hdue : match rt_next_ping (s_rt (w_sess w)) with Some dd => dd <=? w_now w | None => false end = false).
+  { destruct (rt_next_ping (s_rt (w_sess w))) as [dd|] eqn:En; [|reflexivity]. specialize (Hnp dd eq_refl). apply N.leb_gt. exact Hnp. }
+  rewrite Hdue. cbn [andb]. rewrite <- S4, upd_sess_same, S4, Ob4, Hn. cbn [orb]. rewrite ?S4, ?Ob4, ?Hn.
+  eexists. split; [reflexivity|]. rewrite S4. repeat split; assumption.
+Qed.
+
+(* computed: the same connection with a broker that answers: PINGREQ at 25 s, PINGRESP, timer cleared, connection alive *)
+Definition ex_kb : world :=
+  run_case {| c_cfg := ex_cfgk; c_prog := [ASetBroker 2; AConnect []; ASetBroker 1]; c_script := [] |}.
+Definition ex_kb2 : world := fst (op_poll FUEL ex_kb).
+Example pingresp_example :
+  snd (op_poll FUEL ex_kb) = ODone None /\ w_now ex_kb2 = 25000 /\ w_inq ex_kb2 = [(25000, [208; 0])] /\
+  rt_ping_timeout (s_rt (w_sess ex_kb2)) = Some 30000 /\
+  snd (op_poll FUEL ex_kb2) = ODone None /\ rt_ping_timeout (s_rt (w_sess (fst (op_poll FUEL ex_kb2)))) = None /\
+  w_live (fst (op_poll FUEL ex_kb2)) = true /\ w_now (fst (op_poll FUEL ex_kb2)) = 25000.
+Proof. vm_compute. repeat split. Qed.
